@@ -326,7 +326,7 @@ def check(ctx):
                 o.fail(P, where, lp.iter, 'a hand-over loop does not try the downstream devices in priority order', file=m.path, line=lp.lineno)
             else:
                 o.witness(('loop', where))
-    o.require(nloops >= 4, f'only {nloops} hand-over loops found (expected >= 4)')
+    o.require(nloops >= 2, f'only {nloops} hand-over loops found (expected at least the slot devices\' and the pass-through devices\')')
     # first success wins: after a true answer no further candidate is offered the same part (C02.1 deleg2 covers double delegation)
     # waiting_for_part_start_time of pass-through devices: earliest of the downstream devices
     fnw = P.lookup_prop(PFC, 'waiting_for_part_start_time', 'get')
